@@ -134,6 +134,8 @@ def check_c03(tier):
              kinds=("del_node", "del_edge", "add_edge", "add_node", "swap", "paint")),
         dict(name="nested-divisions", worlds=["noseg-2d", "seg-2d"], seeds=["nested"], depth=1 if q else 2,
              kinds=("del_node", "del_edge", "add_edge", "add_node", "swap"), max_states=None if q else 1500),
+        dict(name="ids-from-6", worlds=["noseg-2d", "seg-2d"], seeds=["skip8"], depth=1 if q else 2,
+             kinds=("del_node", "del_edge", "add_edge", "add_node", "swap", "paint")),
     ]
     res = run_e1("C03", tier, stages, dict(undo_probe=True), time_budget=budget(tier, 300, 1500))
     return with_history_invariants("C03", tier, res)
@@ -153,6 +155,7 @@ def struct_stages(tier, seg_depth_q=1, seg_depth_t=2, extra_kinds=()):
         dict(name="reloaded", worlds=["noseg-2d-reloaded", "seg-2d-reloaded"], seeds=["div", "two", "desc"],
              depth=1 if q else 2, kinds=kinds),
         dict(name="big-ids", worlds=["noseg-2d-bigids", "seg-2d-bigids"], seeds=["bigdiv"], depth=1 if q else 2, kinds=kinds),
+        dict(name="ids-from-6", worlds=["noseg-2d", "seg-2d"], seeds=["skip8"], depth=1 if q else 2, kinds=kinds + ("add_node",)),
         dict(name="nested-divisions", worlds=["noseg-2d", "noseg-2d-given", "seg-2d"], seeds=["nested"], depth=1 if q else 2,
              kinds=("del_node", "del_edge", "add_edge", "swap"), max_states=None if q else 1500),
         dict(name="forests", worlds=["noseg-2d-given"], seeds=forests_seeds(4 if q else 5, 3 if q else 4), depth=1, kinds=kinds),
@@ -204,6 +207,9 @@ def check_c11(tier):
                        kinds=("paint", "add_node", "add_edge", "del_node")))
     stages.append(dict(name="noseg-axes", worlds=["noseg-2d-axes", "noseg-3d"], seeds=NOSEG_SEEDS, depth=1 if q else 2,
                        kinds=STRUCT_KINDS + ("set_attr",)))
+    # a narrow label dtype: node ids that the array cannot hold are refused while the mask is painted
+    stages.append(dict(name="uint8-labels", worlds=["seg-2d-u8"], seeds=["div", "skip", "two", "u8ids"], depth=1 if q else 2,
+                       kinds=("add_node", "paint", "add_edge", "del_node"), max_states=None if q else 3000))
     return run_e1("C11", tier, stages, dict(undo_probe=False), time_budget=budget(tier, 300, 1500))
 
 
@@ -213,8 +219,9 @@ def check_c20(tier):
                  time_budget=budget(tier, 300, 1500))
     # undo()/redo() with nothing to do, refused edits inside longer histories: the E2 sequences
     # of C02 carry the refresh counter on every call
-    return merge_results(res, run_e2("C20", tier, "C02", [(M1, 4 if q else 6), (M2, 3 if q else 5), (M1B, 4 if q else 5)],
-                                     time_budget=budget(tier, 60, 900)))
+    res = merge_results(res, run_e2("C20", tier, "C02", [(M1, 4 if q else 6), (M2, 3 if q else 5), (M1B, 4 if q else 5)],
+                                    time_budget=budget(tier, 60, 900)))
+    return merge_results(res, long_histories("C20", tier))
 
 
 def check_c01(tier):
@@ -234,6 +241,7 @@ def check_c01(tier):
     ]
     if q:
         stages.append(dict(name="seg-3d", worlds=["seg-3d-aniso"], seeds=["div", "skip", "two"], depth=1, kinds=kinds + ("paint",)))
+    stages.append(dict(name="258-frame movie", worlds=["seg-2d-tall"], seeds=["tall"], depth=1, kinds=("del_node", "del_edge", "add_edge", "swap", "paint")))
     return run_e1("C01", tier, stages, dict(undo_probe=True), time_budget=budget(tier, 300, 1500))
 
 
@@ -281,6 +289,7 @@ def check_c07(tier):
         dict(name="scaled", worlds=["seg-2d-aniso", "seg-2d-all"] if q else ["seg-2d-aniso", "seg-2d-all", "seg-3d-aniso"],
              seeds=HAND_SEEDS + ["twodiv"], depth=1 if q else 2, kinds=SEG_KINDS),
     ]
+    stages.append(dict(name="258-frame movie", worlds=["seg-2d-tall"], seeds=["tall"], depth=1, kinds=("del_node", "add_edge", "paint")))
     res = run_e1("C07", tier, stages, dict(undo_probe=True), time_budget=budget(tier, 400, 2400))
     # long undo / redo interleavings of strokes: array against the timeline, invariant after every step back or forth
     res = merge_results(res, run_e2("C07", tier, "C02", [(M2, 4 if q else 6), (M_DEEP_SEG, 7 if q else 8)],
@@ -300,6 +309,8 @@ def check_c08(tier):
         dict(name="3d", worlds=["seg-3d-aniso"] if q else ["seg-3d", "seg-3d-aniso", "seg-3d-all"], seeds=HAND_SEEDS,
              depth=1 if q else 2, kinds=mask_kinds if q else SEG_KINDS),
     ]
+    stages.append(dict(name="wide-ids", worlds=["seg-2d-bigids"], seeds=["bigdiv"], depth=1 if q else 2, kinds=mask_kinds,
+                       max_states=None if q else 2000))
     if q:
         # all 3D shape features (marching cubes, inertia tensor) on strokes that put one label
         # inside another label's bounding box
@@ -307,8 +318,11 @@ def check_c08(tier):
     res = run_e1("C08", tier, stages, dict(undo_probe=True), time_budget=budget(tier, 400, 3000),
                  assumptions=["numpy reference for area/position uses rel_tol 1e-12; the from-scratch differential oracle is exact",
                               "2D perimeter/circularity only with isotropic spacing (skimage limitation)"])
-    return merge_results(res, run_e2("C08", tier, "C10", [(C08_TOGGLE, 3 if q else 4), (C08_TOGGLE_ANISO, 3 if q else 4)],
-                                     alias={"enabled-regionprops-wrong": "C08"}, time_budget=budget(tier, 60, 900)))
+    res = merge_results(res, run_e2("C08", tier, "C10", [(C08_TOGGLE, 3 if q else 4), (C08_TOGGLE_ANISO, 3 if q else 4)],
+                                    alias={"enabled-regionprops-wrong": "C08"}, time_budget=budget(tier, 60, 900)))
+    from . import smallscope as ss
+    return merge_results(res, run_e3("C08", tier, [("c08big", "one-pixel edits of masks of 12, 2 500 and 104 640 pixels (area / position after edit, undo, redo)",
+                                                     lambda: ss.c08_big_cases(tier, "C08"))], time_budget=budget(tier, 60, 600)))
 
 
 def check_c09(tier):
@@ -494,8 +508,15 @@ def check_c02(tier):
     menus = [(M1, 5 if q else 7), (M1B, 5 if q else 6), (M2, 4 if q else 6), (M3, 2 if q else 3), (M3S, 2),
              (M_DEEP, 7 if q else 9), (M_REFUSED, 6 if q else 8), (M_NESTED, 4 if q else 6), (M_DEEP_LIN, 8 if q else 9),
              (M_DEEP_SEG, 7 if q else 8), (M_LONG, 2 if q else 3)]
-    return run_e2("C02", tier, "C02", menus, time_budget=budget(tier, 400, 3000),
-                  inv_props=("C03", "C04", "C05", "C06"))
+    res = run_e2("C02", tier, "C02", menus, time_budget=budget(tier, 400, 3000),
+                 inv_props=("C03", "C04", "C05", "C06"))
+    return merge_results(res, long_histories("C02", tier))
+
+
+def long_histories(prop, tier):
+    from . import smallscope as ss
+    return run_e3(prop, tier, [("longhist", "histories of 3 and 300 accepted edits followed by complete unwinding / rewinding / a new edit (every call against the timeline)",
+                                lambda: ss.long_history_cases(tier))], time_budget=budget(tier, 60, 600))
 
 
 ENABLE = lambda *k: ("enable", tuple(k))  # noqa: E731
@@ -513,6 +534,13 @@ C10_SEG = dict(name="C10-seg-div", world="seg-2d-core", seed="div", items=[
 ])
 C10_SEG_FD = dict(C10_SEG, name="C10-seg-div-featuredict", world="seg-2d-fd")
 C10_SEG_FD_STALE = dict(C10_SEG, name="C10-seg-div-featuredict-stale-area", world="seg-2d-fd-stale")
+# narrow label dtype, ids whose products / packed pairs wrap in it
+C10_SEG_U8 = dict(name="C10-seg-u8ids", world="seg-2d-u8", seed="u8ids", items=[
+    ENABLE("iou"), DISABLE("iou"), ENABLE("area"), DISABLE("area"),
+    ("paint", 1, [[0], [1]], 0, 9, False, "part32"),
+    ("del_edge", 16, 64),
+    UNDO, REDO,
+])
 C10_NOSEG = dict(name="C10-noseg-div", world="noseg-2d", seed="div", items=[
     ENABLE("lineage_id"), DISABLE("lineage_id"), ENABLE("track_id"), DISABLE("track_id"),
     ENABLE("area"), DISABLE("nope"), ENABLE("lineage_id", "nope"),
@@ -550,8 +578,11 @@ C09_TOGGLE = dict(name="C09-toggle-skip", world="seg-2d", seed="skip", items=[
 def check_c10(tier):
     q = tier == "quick"
     menus = [(C10_SEG, 3 if q else 4), (C10_SEG_FD, 3 if q else 4), (C10_SEG_FD_STALE, 2 if q else 3),
-             (C10_NOSEG, 4 if q else 5), (C10_NOSEG_FD, 3 if q else 4)]
-    return run_e2("C10", tier, "C10", menus, time_budget=budget(tier, 400, 3000))
+             (C10_NOSEG, 4 if q else 5), (C10_NOSEG_FD, 3 if q else 4), (C10_SEG_U8, 3 if q else 4)]
+    res = run_e2("C10", tier, "C10", menus, time_budget=budget(tier, 400, 3000))
+    from . import smallscope as ss
+    return merge_results(res, run_e3("C10", tier, [("c08big", "area / position switched off, one-pixel edit of a mask of 12, 2 500 and 104 640 pixels, switched on again",
+                                                     lambda: ss.c08_big_cases(tier, "C10"))], time_budget=budget(tier, 60, 600)))
 
 
 # ---------------------------------------------------------------------------
@@ -568,7 +599,7 @@ def run_e3(prop, tier, parts, assumptions=None, time_budget=None):
     for name, label, factory in parts:
         print(f"[{prop}] part {label}")
         # file-writing cases cost 0.1-0.5 s each: hand them out in small chunks
-        chunk = 6 if name in ("c12g", "c15") else (2 if name == "c07big" else 200)
+        chunk = 6 if name in ("c12g", "c15") else (1 if name in ("c07big", "c08big", "longhist") else 200)
         r = smallscope.run_cases(name, factory(), chunk=chunk, deadline=deadline)
         for v in r["violations"]:
             v["check_fn"] = name
